@@ -322,6 +322,12 @@ def finish(ctx, level, n_disch, checker_cmd, explanation):
     real_obls = [o for o in ctx.obligations]
     for part in ctx.bounded['parts'].values():
         part.setdefault('distinct', set())
+    per_func = {}
+    for o in real_obls:
+        if getattr(o, 'func', None):
+            d = per_func.setdefault(o.func, {'obligations': 0, 'valid': 0})
+            d['obligations'] += 1
+            d['valid'] += 1 if o.result == 'valid' else 0
     cov = {
         'obligations': len(real_obls),
         'discharged': n_disch,
@@ -330,6 +336,12 @@ def finish(ctx, level, n_disch, checker_cmd, explanation):
         'explanation': explanation,
         'functions_under_contract': sorted(ctx.funcs),
         'functions_detail': ctx.funcs,
+        # measured per function (annotated is not proved): obligations generated from the function's own body in THIS run
+        # and how many of them were discharged; a function listed under contract with no obligation of its own here is
+        # used through its contract only (its body is discharged by the check named in DESIGN 4 for it, or it is a
+        # frame-only entry of C16)
+        'obligations_per_function': per_func,
+        'under_contract_without_own_obligation_in_this_run': sorted(f for f in ctx.funcs if f not in per_func),
         'inlined': sorted(ctx.inlined),
         'extraction_drops': sorted(ctx.dropped),
         'backends': sorted({o.backend for o in real_obls}),
